@@ -83,13 +83,20 @@ Definition SInv (tg : tags) (ps : pstate) : Prop := Inv tg (hp ps) /\ KInv tg (h
 
 Lemma pstep_exec : forall cf ps p,
   pstep cf ps p =
-  match exec 0 (prim_prog cf p) (hp ps) with
-  | (Done po, h') => ({| hp := h'; kn := if returns_caps p then fold_left add_known (out_handles po) (kn ps) else kn ps |}, RDone po)
-  | (Crashed, h') => ({| hp := h'; kn := kn ps |}, RPanic)
+  match exec (par ps) (prim_prog cf p) (hp ps) with
+  | (Done po, h') => ({| hp := h'; kn := if returns_caps p then fold_left add_known (out_handles po) (kn ps) else kn ps;
+                         par := par ps; ptr := p :: ptr ps |}, RDone po)
+  | (Crashed, h') => ({| hp := h'; kn := kn ps; par := par ps; ptr := p :: ptr ps |}, RPanic)
   end.
 Proof.
-  intros. unfold pstep, exec. destruct (run 0 (prim_prog cf p) (hp ps)) as [[[po|] h'] l]; reflexivity.
+  intros. unfold pstep, exec. destruct (run (par ps) (prim_prog cf p) (hp ps)) as [[[po|] h'] l]; reflexivity.
 Qed.
+
+Lemma pstep_par : forall cf ps p, par (fst (pstep cf ps p)) = par ps.
+Proof. intros. rewrite pstep_exec. destruct (exec (par ps) (prim_prog cf p) (hp ps)) as [[po|] h']; reflexivity. Qed.
+
+Lemma runh_par : forall cf hs ps, par (runh cf ps hs) = par ps.
+Proof. induction hs; cbn; intros; auto. rewrite IHhs. apply pstep_par. Qed.
 
 Lemma pstep_inv : forall cf tg ps p, SInv tg ps -> legal ps p = true ->
   exists tg', SInv tg' (fst (pstep cf ps p)) /\ Ext tg (hp ps) tg' (hp (fst (pstep cf ps p))).
@@ -98,13 +105,13 @@ Proof.
   assert (Hpre : prim_pre p tg (hp ps)).
   { split; [|assumption]. rewrite forallb_forall in Hops. apply Forall_forall. intros hd Hin.
     eapply known_ok; eauto. }
-  rewrite pstep_exec. destruct (exec 0 (prim_prog cf p) (hp ps)) as [[po|] h'] eqn:He.
-  - destruct (t_prim_prog cf p tg (hp ps) 0 _ _ HI Hpre He) as (tg' & [I' E'] & Hpost).
+  rewrite pstep_exec. destruct (exec (par ps) (prim_prog cf p) (hp ps)) as [[po|] h'] eqn:He.
+  - destruct (t_prim_prog cf p tg (hp ps) (par ps) _ _ HI Hpre He) as (tg' & [I' E'] & Hpost).
     exists tg'. cbn. split; [|assumption]. split; [assumption|]. cbn.
     pose proof (KInv_ext _ _ _ _ _ E' HK) as HK'.
     destruct (returns_caps p) eqn:Rc; [|assumption].
     apply fold_add_known_ok; [assumption|]. apply out_handles_ok. apply Hpost. exact Rc.
-  - destruct (t_prim_prog cf p tg (hp ps) 0 _ _ HI Hpre He) as (tg' & [I' E'] & _).
+  - destruct (t_prim_prog cf p tg (hp ps) (par ps) _ _ HI Hpre He) as (tg' & [I' E'] & _).
     exists tg'. cbn. split; [|assumption]. split; [assumption|]. eapply KInv_ext; eauto.
 Qed.
 
@@ -178,11 +185,11 @@ Section Stable.
       destruct (fst (exec ar (rd_content fuel p') h)); [rewrite !exec_ret|]; reflexivity.
   Qed.
 
-  Lemma acc_stable : forall cf r a, fref tg h r ->
+  Lemma acc_stable : forall ar cf r a, fref tg h r ->
     (cf_stream_shared cf = false \/ stream_acc r a = false) ->
-    fst (exec 0 (acc_prog cf r a) h) = fst (exec 0 (acc_prog cf r a) h').
+    fst (exec ar (acc_prog cf r a) h) = fst (exec ar (acc_prog cf r a) h').
   Proof.
-    intros cf r a Hr Hs.
+    intros ar cf r a Hr Hs.
     destruct r as [| |k x|sl|x|s|s|d].
     - reflexivity.
     - destruct a; reflexivity.
@@ -192,15 +199,15 @@ Section Stable.
       unfold rdv. rewrite !exec_rd, Gx. rewrite (same_frozen _ _ Tx Gx) by discriminate. reflexivity.
     - (* plainBytes *)
       destruct a; try reflexivity; cbn; rewrite !exec_bind;
-        rewrite (exec_wfree_fst _ _ 0 h (wfree_read_bytes sl)), (exec_wfree_fst _ _ 0 h' (wfree_read_bytes sl));
-        rewrite <- (read_bytes_stable 0 sl Hr);
-        (destruct (fst (exec 0 (read_bytes sl) h)); [rewrite !exec_ret|]; reflexivity).
+        rewrite (exec_wfree_fst _ _ ar h (wfree_read_bytes sl)), (exec_wfree_fst _ _ ar h' (wfree_read_bytes sl));
+        rewrite <- (read_bytes_stable ar sl Hr);
+        (destruct (fst (exec ar (read_bytes sl) h)); [rewrite !exec_ret|]; reflexivity).
     - (* streamBytes *)
       destruct a; try reflexivity; cbn; cbn in Hs;
         (destruct Hs as [Hs|Hs]; [|discriminate]); unfold stream_read; rewrite Hs; rewrite !exec_bind;
-        rewrite (exec_wfree_fst _ _ 0 h (wfree_rd_content rd_fuel x)), (exec_wfree_fst _ _ 0 h' (wfree_rd_content rd_fuel x));
-        rewrite <- (rd_content_stable rd_fuel 0 x Hr);
-        (destruct (fst (exec 0 (rd_content rd_fuel x) h)); [rewrite !exec_ret|]; reflexivity).
+        rewrite (exec_wfree_fst _ _ ar h (wfree_rd_content rd_fuel x)), (exec_wfree_fst _ _ ar h' (wfree_rd_content rd_fuel x));
+        rewrite <- (rd_content_stable rd_fuel ar x Hr);
+        (destruct (fst (exec ar (rd_content rd_fuel x) h)); [rewrite !exec_ret|]; reflexivity).
     - (* map *)
       pose proof Hr as [Ts (t & g & Gs)].
       destruct (inv_frozen _ _ _ HI Ts) as [c [Gc Fc]]. rewrite Gs in Gc; inversion Gc; subst c. destruct Fc as [Hsl Hgm].
@@ -210,9 +217,9 @@ Section Stable.
       + destruct g as [ga|]; [|reflexivity]. destruct Hgm as [Tg [es Ge]].
         rewrite !exec_rd, Ge. rewrite (same_frozen _ _ Tg Ge) by discriminate. reflexivity.
       + rewrite !exec_bind.
-        rewrite (exec_wfree_fst _ _ 0 h (wfree_read_slice t)), (exec_wfree_fst _ _ 0 h' (wfree_read_slice t)).
-        rewrite <- (read_slice_stable 0 t Hsl).
-        destruct (fst (exec 0 (read_slice t) h)); [rewrite !exec_ret|]; reflexivity.
+        rewrite (exec_wfree_fst _ _ ar h (wfree_read_slice t)), (exec_wfree_fst _ _ ar h' (wfree_read_slice t)).
+        rewrite <- (read_slice_stable ar t Hsl).
+        destruct (fst (exec ar (read_slice t) h)); [rewrite !exec_ret|]; reflexivity.
     - (* list *)
       pose proof Hr as [Ts (x & Gs)].
       destruct (inv_frozen _ _ _ HI Ts) as [c [Gc Hsl]]. rewrite Gs in Gc; inversion Gc; subst c. cbn in Hsl.
@@ -221,13 +228,13 @@ Section Stable.
       + reflexivity.
       + destruct ((i <? 0)%Z || (Z.of_nat (s_len x) <=? i)%Z); [reflexivity|].
         rewrite !exec_bind.
-        rewrite (exec_wfree_fst _ _ 0 h (wfree_read_slice x)), (exec_wfree_fst _ _ 0 h' (wfree_read_slice x)).
-        rewrite <- (read_slice_stable 0 x Hsl).
-        destruct (fst (exec 0 (read_slice x) h)); [rewrite !exec_ret|]; reflexivity.
+        rewrite (exec_wfree_fst _ _ ar h (wfree_read_slice x)), (exec_wfree_fst _ _ ar h' (wfree_read_slice x)).
+        rewrite <- (read_slice_stable ar x Hsl).
+        destruct (fst (exec ar (read_slice x) h)); [rewrite !exec_ret|]; reflexivity.
       + rewrite !exec_bind.
-        rewrite (exec_wfree_fst _ _ 0 h (wfree_read_slice x)), (exec_wfree_fst _ _ 0 h' (wfree_read_slice x)).
-        rewrite <- (read_slice_stable 0 x Hsl).
-        destruct (fst (exec 0 (read_slice x) h)); [rewrite !exec_ret|]; reflexivity.
+        rewrite (exec_wfree_fst _ _ ar h (wfree_read_slice x)), (exec_wfree_fst _ _ ar h' (wfree_read_slice x)).
+        rewrite <- (read_slice_stable ar x Hsl).
+        destruct (fst (exec ar (read_slice x) h)); [rewrite !exec_ret|]; reflexivity.
     - (* foreign *)
       destruct a; cbn; repeat match goal with |- context [match ?x with _ => _ end] => destruct x end; reflexivity.
   Qed.
@@ -237,10 +244,10 @@ End Stable.
 
 Lemma read_obs_fst : forall cf ps r a,
   read_obs cf ps r a =
-  match fst (exec 0 (acc_prog cf r a) (hp ps)) with Done x => RDone (PAcc x) | Crashed => RPanic end.
+  match fst (exec (par ps) (acc_prog cf r a) (hp ps)) with Done x => RDone (PAcc x) | Crashed => RPanic end.
 Proof.
   intros. unfold read_obs. rewrite pstep_exec. cbn [prim_prog]. rewrite exec_bind.
-  destruct (exec 0 (acc_prog cf r a) (hp ps)) as [[x|] h1]; cbn; rewrite ?exec_ret; reflexivity.
+  destruct (exec (par ps) (acc_prog cf r a) (hp ps)) as [[x|] h1]; cbn; rewrite ?exec_ret; reflexivity.
 Qed.
 
 (* For every Legal history, every node handed out during a prefix of it, and every accessor: the
@@ -256,8 +263,8 @@ Proof.
   destruct (legalh_app _ _ _ _ Hl) as [L1 L2].
   destruct (runh_inv cf hs1 _ _ sinv_init L1) as (tg1 & [I1 K1] & _).
   destruct (runh_inv cf hs2 _ _ (conj I1 K1) L2) as (tg2 & [I2 K2] & E2).
-  rewrite runh_app. rewrite !read_obs_fst.
-  rewrite (acc_stable tg1 _ tg2 _ I1 E2 cf r a); [reflexivity | | assumption].
+  rewrite runh_app. rewrite !read_obs_fst. rewrite !runh_par.
+  rewrite (acc_stable tg1 _ tg2 _ I1 E2 (par pinit) cf r a); [reflexivity | | assumption].
   exact (known_ok _ _ _ _ K1 Hk).
 Qed.
 
